@@ -261,4 +261,66 @@ theorem coord_lt_iff {n h N : Nat} (hh : h ≤ trailingOnes n) : mmr n + h < mmr
 theorem two_pow_le_of_le_trailingOnes {n h : Nat} (hh : h ≤ trailingOnes n) : 2^h ≤ n + 1 :=
   (leftmost_coord hh).1
 
+
+/-! ### Ancestors: `up n j` is `n` with its low `j` bits set — the last leaf below the ancestor of
+height `j` of leaf `n` (or of any node `(n, h)` with `h ≤ j`). -/
+
+def up (n j : Nat) : Nat := n / 2^j * 2^j + (2^j - 1)
+
+theorem up_zero (n : Nat) : up n 0 = n := by simp [up]
+
+theorem up_valid (n j : Nat) : j ≤ trailingOnes (up n j) :=
+  (le_trailingOnes_iff j _).2 ⟨n / 2^j, rfl⟩
+
+theorem up_of_valid {n h : Nat} (hh : h ≤ trailingOnes n) : up n h = n := by
+  obtain ⟨a, rfl⟩ := coord_form hh
+  simp only [up, div_pow_of_form]
+
+theorem up_div (n j : Nat) : up n j / 2^j = n / 2^j := div_pow_of_form _ _
+
+theorem bitSet_up (n j : Nat) : bitSet (up n j) j = bitSet n j := by
+  simp only [bitSet, up_div]
+
+theorem le_up (n j : Nat) : n ≤ up n j := by
+  have hpos := two_pow_pos j
+  have h1 := Nat.div_add_mod n (2^j)
+  have h2 := Nat.mod_lt n hpos
+  have h3 : 2^j * (n / 2^j) = n / 2^j * 2^j := Nat.mul_comm _ _
+  unfold up; omega
+
+/-- one level up: a right child keeps its last leaf, a left child gains the `2^j` leaves of its
+right sibling -/
+theorem up_succ (n j : Nat) : up n (j+1) = if bitSet n j then up n j else up n j + 2^j := by
+  have hp := two_pow_succ j
+  have hpos := two_pow_pos j
+  have hdiv : n / 2^(j+1) = n / 2^j / 2 := by rw [hp, Nat.mul_comm, Nat.div_div_eq_div_mul]
+  have hq : n / 2^j / 2 * 2^(j+1) = (2 * (n / 2^j / 2)) * 2^j := by rw [hp]; ac_rfl
+  simp only [up, bitSet, hdiv, hq]
+  by_cases hodd : n / 2^j % 2 = 1
+  · have e : n / 2^j = 2 * (n / 2^j / 2) + 1 := by omega
+    simp only [hodd, beq_self_eq_true, if_true]
+    conv => rhs; rw [e, Nat.add_mul]
+    omega
+  · have e : n / 2^j = 2 * (n / 2^j / 2) := by omega
+    have : (n / 2^j % 2 == 1) = false := by simp [hodd]
+    simp only [this, Bool.false_eq_true, if_false]
+    conv => rhs; rw [e]
+    omega
+
+theorem up_le_up_succ (n j : Nat) : up n j ≤ up n (j+1) := by
+  rw [up_succ]; split
+  · exact Nat.le_refl _
+  · exact Nat.le_add_right _ _
+
+theorem up_mono (n : Nat) {j k : Nat} (h : j ≤ k) : up n j ≤ up n k := by
+  induction h with
+  | refl => exact Nat.le_refl _
+  | step _ ih => exact Nat.le_trans ih (up_le_up_succ n _)
+
+/-- the level-`j` ancestor is a right child iff bit `j` of the leaf index is set -/
+theorem bitSet_up_iff (n j : Nat) : j < trailingOnes (up n j) ↔ bitSet n j = true := by
+  have := bitSet_coord (up_valid n j)
+  rw [bitSet_up] at this
+  rw [this]; simp
+
 end GV.Pmmr.Co
